@@ -1624,9 +1624,15 @@ func (c *ChannelArbitrator) resolveContracts(resolvers []ContractResolver) {
 
 // launchResolvers launches all the active resolvers concurrently.
 func (c *ChannelArbitrator) launchResolvers() {
-	c.activeResolversLock.Lock()
-	resolvers := c.activeResolvers
-	c.activeResolversLock.Unlock()
+	// Take a copy of the active resolvers under the lock: replaceResolver
+	// swaps elements of the slice in place from the resolvers' own
+	// goroutines, so iterating the shared backing array without the lock
+	// is a data race (a torn read of the interface value crashes the
+	// process).
+	c.activeResolversLock.RLock()
+	resolvers := make([]ContractResolver, len(c.activeResolvers))
+	copy(resolvers, c.activeResolvers)
+	c.activeResolversLock.RUnlock()
 
 	// errChans is a map of channels that will be used to receive errors
 	// returned from launching the resolvers.
